@@ -120,6 +120,27 @@ func c11VMCase(pool []val.Value, idx int) core.Result {
 		}
 		res.Add("vm_temp_forms", 1)
 	}
+	// unary operators through compiled programs (how the compiler spells a negation is its business; its
+	// value is not): on the variable, on a literal, and as an array element
+	if idx%len(pool) == 0 {
+		for _, op := range unOps {
+			want := val.Unary(op, a)
+			srcs := []string{op + "xa", "[" + op + "xa][0]"}
+			if la, okl := c11Literal(a); okl {
+				srcs = append(srcs, op+la, "[1, "+op+la+"][1]")
+			}
+			for _, src := range srcs {
+				ob, bad := run(src)
+				if bad == "" {
+					bad = check(src, want, ob)
+				}
+				if bad != "" {
+					return fail(src, bad)
+				}
+				res.Add("vm_unary_forms", 1)
+			}
+		}
+	}
 	// literal forms: the same pair with one or both operands written as literals (constant operands,
 	// constant folding) and as the update statements the compiler has shortcuts for (v = v op k, v = k op v),
 	// on a global and on a local.
